@@ -8,7 +8,7 @@ import (
 	be "github.com/echoface/be_indexer"
 )
 
-const c16Rule = "exhaustive over the universe of value shapes (every scalar kind, every typed slice incl. empty and typed nil, fixed-size arrays, []interface{} with nil / nested / bool elements, maps, pointers, channels, funcs, structs, complex, untyped nil) x {field with default container, pattern container, range container, number parser, unknown field} x {k-groups, compact, roaring} x index states {ordinary documents; no document; configured pattern/range/default fields whose holders are empty (empty value lists, unparsable values skipped)}; every hostile retrieval is followed by ordinary retrievals on the same index/scanner; plus every shape on indexes published three times by one builder (panic-freedom only). Non-trivial = the hostile value reaches a holder of a known field (the retrieval returns an error or a result computed from it); distinct = distinct input"
+const c16Rule = "exhaustive over the universe of value shapes (every scalar kind, every typed slice incl. empty and typed nil, fixed-size arrays, []interface{} with nil / nested / bool elements, maps, pointers, channels, funcs, structs, complex, untyped nil) x {field with default container, pattern container, range container, number parser, unknown field} x {k-groups, compact, roaring} x index states {ordinary documents; no document; configured pattern/range/default fields whose holders are empty (empty value lists, unparsable values skipped)}; every hostile retrieval is followed by ordinary retrievals on the same index/scanner; plus every shape on indexes published three times by one builder (panic-freedom only). retrievals with the WithStepDetail / WithDumpEntries options over keywords of 1..40 bytes (multi-byte ones of 6..24 characters), extreme numbers and range pieces; Non-trivial = the hostile value reaches a holder of a known field (the retrieval returns an error or a result computed from it); distinct = distinct input"
 
 // emptyListHolder: the stock default holder, except that "nothing matched" is an empty NON-nil cursor list
 type emptyListHolder struct{ *be.DefaultEntriesHolder }
@@ -73,6 +73,23 @@ func init() {
 					}
 					add(c)
 				}
+			}
+			// the retrieve options WithStepDetail / WithDumpEntries (every cursor is labelled and dumped): keys of every
+			// kind -- keywords of 1..40 bytes and 1..20 characters incl. multi-byte ones, extreme numbers, range pieces
+			for _, kind := range []string{"kgroups", "compact"} {
+				kws := []string{"a", "redpacket", "fifteen-chars-xx", "sixteen-chars-xxx", "seventeen-chars-xx", "中华人民共和国万岁", "Привет, мир!!", "日本語のキーワードです", "ключевое слово подлиннее", "é", "naïve café crème"}
+				c := eCase{Kind: kind, Policy: "error", Configs: map[int]string{1: "ac_matcher", 2: "ext_range"}, Parsers: map[int]string{4: "number"}}
+				for i, k := range kws {
+					c.Docs = append(c.Docs, eDoc{ID: int64(i + 1), Cons: []eConj{{{F: 1, Inc: i%3 != 2, V: tvSlice("[]string", tvStr(k))}}}})
+				}
+				c.Docs = append(c.Docs,
+					eDoc{ID: 50, Cons: []eConj{{{F: 0, Inc: true, V: tvSlice("[]int64", tvInt("int64", 1<<62), tvInt("int64", -(1 << 62)))}, {F: 2, Inc: true, Op: 3, V: tvSlice("[]int64", tvInt("int64", -(1 << 61)), tvInt("int64", 1<<61))}}}},
+					eDoc{ID: 51, Cons: []eConj{{{F: 4, Inc: true, V: tvSlice("[]int64", tvInt("int64", 1<<62))}, {F: 0, Inc: false, V: tvStr("a rather long text value on a default field")}}}})
+				for _, k := range kws {
+					c.Queries = append(c.Queries, eQuery{A: []eAssign{{F: 1, V: tvStr("标语: " + k + "!")}}, Debug: true}, eQuery{A: []eAssign{{F: 1, V: tvSlice("[]string", tvStr(k), tvStr("x"))}, {F: 0, V: tvInt("int64", 1<<62)}, {F: 2, V: tvInt("int64", 5)}}, Debug: true})
+				}
+				c.Queries = append(c.Queries, eQuery{A: []eAssign{{F: 4, V: tvInt("int64", 1<<62)}, {F: 0, V: tvStr("a rather long text value on a default field")}}, Debug: true}, eQuery{Debug: true})
+				add(c)
 			}
 			// wide assignments: 5..9 fields each hitting a posting list of one size group (a scan over that many live
 			// cursors), with and without a hostile value among them
